@@ -44,7 +44,7 @@ fn run(cfg: &TrkCfg, ls: &[Vec<Det>], h: &[Call]) -> Obs {
 
 pub fn run_check(tier: Tier) -> Report {
     let rep = Report::new("C05", tier);
-    rep.set_rule("(1) every history of depth <= 3 (Sort: 3 quick / 4 thorough) over predict(scene in {0,5}, one of 7 tie-free lists) for shard counts 2..8 against the 1-shard transcript (ids included for the simple trackers); (2) for Sort and VisualSort with 2 and 3 shards, IoU and Mahalanobis, histories of three calls with 2-3 detections (appearing, continuing, approaching, crossing objects): every schedule of the store workers and the caller at command granularity within each call in turn (window = one call; 3 shards: preemption bound 2 quick / 3 thorough), plus a fine tier branching at every synchronisation operation with one preemption; oracle: records and the canonical store dump after every call equal the 1-shard default-schedule reference. states = executions.");
+    rep.set_rule("(1) every history of depth <= 3 (Sort: 3 quick / 4 thorough) over predict(scene in {0,5}, one of 7 tie-free lists) for shard counts 2..8 against the 1-shard transcript (ids included for the simple trackers); (2) for Sort and VisualSort with 2 and 3 shards, IoU and Mahalanobis, histories of three calls with 2-3 detections (appearing, continuing, approaching, crossing objects): every schedule of the store workers and the caller at command granularity within each call in turn (window = one call; 3 shards: preemption bound 2 quick / 3 thorough; thorough also 4 shards at bound 2), plus a fine tier branching at every synchronisation operation with one preemption; oracle: records and the canonical store dump after every call equal the 1-shard default-schedule reference. states = executions.");
     rep.assume("windows are joined by checked state equality: the dump after each call is identical under every schedule, so later windows are explored from the default-schedule representative");
     super::c04::run_c05_configs(&rep, tier);
 
@@ -54,8 +54,11 @@ pub fn run_check(tier: Tier) -> Report {
     let mut total = 0u64;
     for kind in [Kind::Sort, Kind::VisualSort] {
         for pos in [Pos::Iou(0.3), Pos::Maha] {
-            for shards in [2usize, 3] {
+            for shards in [2usize, 3, 4] {
                 for (hi, h) in histories.iter().enumerate() {
+                    if shards == 4 && (tier == Tier::Quick || hi > 1) {
+                        continue;
+                    }
                     if tier == Tier::Quick && (hi >= 2 && hi != 4 && (shards == 3 || pos == Pos::Maha) || hi == 4 && (shards == 3 || pos == Pos::Maha || kind == Kind::VisualSort) || kind == Kind::VisualSort && shards == 3 && hi >= 1) {
                         continue;
                     }
@@ -73,7 +76,7 @@ pub fn run_check(tier: Tier) -> Report {
                     let reference = sched::in_shuttle(move || run(&rc, &ls2, &h2)).unwrap_or_else(|e| machinery_error(&format!("C05 reference run failed: {e}")));
                     let _ = transcript;
                     for window in 1..=h.len() as u32 {
-                        let bound = if shards == 2 { usize::MAX / 4 } else { tier.pick(2, 3) };
+                        let bound = if shards == 2 { usize::MAX / 4 } else if shards == 3 { tier.pick(2, 3) } else { 2 };
                         let ecfg = sched::ExploreCfg { window: (window, window), bound, deadline: Some(std::time::Instant::now() + std::time::Duration::from_secs_f64((rep.budget() - rep.elapsed()).max(1.0))), ..Default::default() };
                         let (ls2, h2, c2) = (ls.clone(), h.clone(), cfg.clone());
                         let orders: Mutex<BTreeSet<u64>> = Mutex::new(BTreeSet::new());
